@@ -87,6 +87,9 @@ def classify_exception(name, texts):
         return "C07:ZeroDivisionError:zero-denominator"
     if name == "OverflowError" and re.search(r"[0-9]{300,}", joined):
         return "C07:OverflowError:integer-literal-beyond-float-range"
+    if name == "ValueError" and re.search(r"[0-9]{4301,}", joined):
+        # CPython refuses str -> int beyond sys.get_int_max_str_digits() (4300) digits
+        return "C07:ValueError:integer-literal-beyond-interpreter-digit-limit"
     if name == "RecursionError":
         # the string rule recurses once per string part: one name written as dozens of quoted/braced parts
         parts = max((len(re.findall(r"'[^'\n]*'|\"[^\"\n]*\"|\{[^}\n]*\}", line)) for line in joined.split("\n")), default=0)
@@ -148,7 +151,51 @@ def check_markdown(doc):
     return []
 
 
-CORPUS = [["1/0 x"], ["2 1/0 kg x"], ["{1/0} x"], ["x {a 3/0 b}"], [" ".join(["'a'"] * 80)], ["f(" * 25 + "x" + ")" * 25], ["9" * 310 + " x"],
+def growth(make, small, big, run_it):
+    """(seconds for the bigger input, ratio to the smaller one): inputs that differ by two repetitions of one construct"""
+    ts = []
+    for n in (small, big):
+        t0 = time.time()
+        try:
+            run_it(make(n))
+        except Exception:
+            pass
+        ts.append(time.time() - t0)
+    return ts[1], ts[1] / max(ts[0], 1e-4)
+
+
+def check_promptness():
+    """'terminates promptly': compile time must not multiply with every further statement / character of a short input"""
+    out = []
+    chain = lambda n: ["a0 = 1 egg\n" + "\n".join("a%d = mix(1/2 * a%d, 1/2 * a%d)" % (k, k - 1, k - 1) for k in range(1, n))]  # noqa
+    t, r = growth(chain, 13, 15, lambda src: real_outcome(src))
+    if t > 0.3 and r > 2.5:
+        out.append(("C07:compile-time-doubles-per-statement:chain-of-sub-recipes-each-used-twice",
+                    "15 one-line statements (each sub recipe used twice by the next): %.2fs, %.1f times the time for 13" % (t, r)))
+    digits = lambda n: "{" + "1" * n + "\n"  # noqa
+    t, r = growth(digits, 20, 22, compile_markdown)
+    if t > 0.3 and r > 2.5:
+        out.append(("C07:markdown-time-doubles-per-character:unclosed-brace-followed-by-digits",
+                    "a paragraph of '{' and 22 digits: %.2fs, %.1f times the time for 20 digits" % (t, r)))
+    slashes = lambda n: "{" + "\\a" * n + "\n"  # noqa
+    t, r = growth(slashes, 19, 21, compile_markdown)
+    if t > 0.3 and r > 2.5:
+        out.append(("C07:markdown-time-doubles-per-character:unclosed-brace-followed-by-backslash-pairs",
+                    "a paragraph of '{' and 21 backslash-letter pairs: %.2fs, %.1f times the time for 19" % (t, r)))
+    # other repeated constructs must stay cheap
+    for what, make, run_it in (("statements", lambda n: ["\n".join("s%d = mix(%d g x%d, y)" % (i, i, i) for i in range(n * 40))], real_outcome),
+                               ("nested steps", lambda n: ["f(" * n + "x" + ")" * n], real_outcome),
+                               ("references", lambda n: ["a = 1 kg x\n" + "\n".join("f%d(10 g a)" % i for i in range(n * 20))], real_outcome),
+                               ("brace expressions", lambda n: "text {1 1/2} and {2} " * (n * 20) + "\n", compile_markdown),
+                               ("closed brace with digits", lambda n: "{" + "1" * (n * 5) + "}\n", compile_markdown)):
+        t, r = growth(make, 10, 12, run_it)
+        if t > 2.0 and r > 2.5:
+            out.append(("C07:time-multiplies-with-input-size:%s" % what.replace(" ", "-"), "%.2fs, %.1f times the time for an input one fifth shorter" % (t, r)))
+    return out
+
+
+CORPUS = [["1" * 400 + " spam\nfry(1 spam)"], ["1" * 400 + " g spam\nfry(" + "1" * 397 + ".0 kg spam)"], ["1" * 4301 + " spam"],
+          ["1/0 x"], ["2 1/0 kg x"], ["{1/0} x"], ["x {a 3/0 b}"], [" ".join(["'a'"] * 80)], ["f(" * 25 + "x" + ")" * 25], ["9" * 310 + " x"],
           [""], ["\n"], ["x ="], ["a = b = c"], ["1/ spam"], ["foo, foo = spam"], ["50% x"], ["x\nx = 1\n rest of y"]]
 MD_CORPUS = ["{1/0}", "![{2} eggs](x.png)", "# T\n\n    1/0 x\n", "# Title for 2\n\n    2 eggs\n", "```recipe\nx = \n```\n", "text {3 1/2} more {x\\}}"]
 
@@ -199,6 +246,9 @@ def oracle(run):
     run.case(("oracle-big", big), True, kind="big")
     for sig, detail in check_texts([big]):
         run.violate(sig, detail, {"sources": [big]})
+    run.case(("promptness",), True, kind="promptness")
+    for sig, detail in check_promptness():
+        run.violate(sig, detail, {"promptness": True})
     docs = list(MD_CORPUS)
     for t in gen_texts(run, run.budget(90, 3000)):
         body = "\n".join(t)
@@ -220,7 +270,7 @@ def replay(run, obj):
         bad = real[0] != kind or (real[2], real[3]) != (l, c)
         print("expected", kind, "at block", b, "line", l, "col", c, "; got", brief(real), real[2:5] if len(real) > 4 else "")
         return bad
-    res = check_markdown(r["markdown"]) if "markdown" in r else check_texts(r["sources"])
+    res = check_promptness() if r.get("promptness") else (check_markdown(r["markdown"]) if "markdown" in r else check_texts(r["sources"]))
     for x in res:
         print(*x)
     return bool(res)
